@@ -745,6 +745,9 @@ impl ZmtpEngine {
       };
 
       self.last_activity_time = Instant::now();
+      // Any frame from the peer proves it is alive: an outstanding PING must not time out a
+      // connection on which traffic keeps flowing just because the PONG itself has not come.
+      self.waiting_for_pong = false;
 
       if msg.is_command() {
         // ZMTP/2.0 has no COMMAND frames; receiving one is a protocol violation.
